@@ -133,7 +133,7 @@ func (l Leveled) Route(a, b P, hot PixSet) []P {
 			out = append(out, p)
 		}
 	}
-	if cells := (i1 - i0 + 1) * (j1 - j0 + 1); cells > 0 && cells < int64(len(hot)) {
+	if w, h := i1-i0+1, j1-j0+1; w <= 1<<20 && h <= 1<<20 && w*h < int64(len(hot)) { // (bounded first: the product can overflow on long segments)
 		for i := i0; i <= i1; i++ {
 			for j := j0; j <= j1; j++ {
 				if hot.Has(P{i, j}) {
@@ -378,7 +378,7 @@ func (l Leveled) Ties(rings [][]P) TieInfo {
 			pi, qi := l.Pixel(p), l.Pixel(q)
 			i0, i1 := min64(pi.X, qi.X), max64(pi.X, qi.X)+1
 			j0, j1 := min64(pi.Y, qi.Y), max64(pi.Y, qi.Y)+1
-			if (i1-i0+1)*(j1-j0+1) > 400 {
+			if i1-i0 > 400 || j1-j0 > 400 || (i1-i0+1)*(j1-j0+1) > 400 {
 				continue
 			}
 			for ci := i0; ci <= i1 && !t.EdgeThroughCorner; ci++ {
